@@ -97,7 +97,25 @@ fn handle_end<T: EncodingContext>(
 
 pub(super) fn encode<T: EncodingContext>(ctx: &mut T) -> Result<(), DataEncodingError> {
     let mut symbols = ArrayVec::<u8, 4>::new();
-    while let Some(ch) = ctx.eat() {
+    loop {
+        // Exactly four characters left at a group boundary? Then check now if they can
+        // be encoded with at most two ASCII codewords at the end of the symbol (this is
+        // what the planner assumes), handle_end() only sees up to three pending characters.
+        if symbols.is_empty() && ctx.characters_left() == 4 {
+            let ascii_size = ascii::encoding_size(ctx.rest());
+            if ascii_size <= 2 {
+                let space = ctx.symbol_size_left(ascii_size).map(|x| x + ascii_size);
+                if matches!(space, Some(space) if space <= 2) {
+                    ctx.set_ascii_until_end();
+                    return Ok(());
+                }
+            }
+        }
+        let ch = if let Some(ch) = ctx.eat() {
+            ch
+        } else {
+            break;
+        };
         symbols.push(ch);
 
         if symbols.len() == 4 {
